@@ -18,13 +18,25 @@ import urllib.parse
 LOG = []          # calls of harness worker functions: (name, args, kwargs-items)
 
 
+def _consume(args, kwargs):
+    """User code may consume the (mutable) objects it is handed: a conversion result that is shared
+    between two commands instead of being made afresh then shows."""
+    for a in list(args) + list(kwargs.values()):
+        if isinstance(a, list):
+            a.clear()
+        elif isinstance(a, dict):
+            a.clear()
+
+
 async def work(*args, **kwargs):
     LOG.append(("work", repr(args), repr(sorted(kwargs.items()))))
+    _consume(args, kwargs)
     await asyncio.sleep(0)
 
 
 async def work2(*args, **kwargs):
     LOG.append(("work2", repr(args), repr(sorted(kwargs.items()))))
+    _consume(args, kwargs)
     await asyncio.sleep(0)
     await asyncio.sleep(0)
 
